@@ -691,3 +691,32 @@ Proof.
     unfold normal_outcome. rewrite outcome_eqb_refl.
     destruct (s_timer (fst (run_sm c (pre ++ post)))); try (elim T; reflexivity); reflexivity.
 Qed.
+
+(** * Timeout source through the command line (Program.update_config + run options) *)
+From InvokeVerif Require Model.RunTypes Model.ProgramModel Proofs.Program_update.
+From InvokeVerif Require Import Corr.C14Corr.
+
+Definition OIntN (n : nat) : RunTypes.oval := RunTypes.OInt (Z.of_nat n).
+Definition oval_of (o : option nat) : RunTypes.oval :=
+  match o with Some n => OIntN n | None => RunTypes.ONone end.
+
+(** the three-line rule used by the correspondence is the Program/option model's *)
+Lemma program_timeout_is_model a lower k r kw cli lw :
+  ProgramModel.effective_opts_cli a lower k = Ok r ->
+  RunTypes.kw_timeout k = option_map OIntN kw ->
+  ProgramTypes.a_timeout a = option_map Z.of_nat cli ->
+  RunTypes.cf_timeout lower = oval_of lw ->
+  RunTypes.r_timeout r = oval_of (program_timeout kw cli lw).
+Proof.
+  intros U K A L. rewrite (Program_update.cli_timeout a lower k r U), K, A, L.
+  destruct kw as [v|]; [reflexivity|]. destruct cli as [n|]; [|reflexivity]. cbn.
+  destruct n; reflexivity.
+Qed.
+
+(** a command timeout that comes ONLY from configuration, the task run through the
+    CLI without -T and without a timeout= keyword: it is in effect *)
+Lemma config_only_via_cli a lower k r :
+  ProgramTypes.a_timeout a = None -> RunTypes.kw_timeout k = None ->
+  ProgramModel.effective_opts_cli a lower k = Ok r ->
+  RunTypes.r_timeout r = RunTypes.cf_timeout lower.
+Proof. intros A K U. rewrite (Program_update.cli_timeout a lower k r U), K, A. reflexivity. Qed.
